@@ -350,6 +350,23 @@ def c07(tapes, params):
             s0_model = w.model.snapshot()
             s0_real = w.peek()
             members = [gen_member() for _ in range(g.between(1, 12, 'nmem'))]
+            if g.chance(1, 3, 'reread'):
+                # the same read twice in one packet with a modification of that tag in between (by any
+                # of the write services): the second reply must show it
+                reads = [m_ for m_ in members if m_['kind'] in ('read', 'readfrag', 'gas')]
+                if reads:
+                    rd = dict(g.choice(reads, 'rrd'))
+                    ttag = None
+                    if rd['ref'][0] == 'name':
+                        ttag = w.model.tags.get(rd['ref'][1].lower())
+                    else:
+                        cands = [t for t in twin_tags if t.addr is not None and t.addr[:2] == tuple(rd['ref'][1][:2])
+                                 and (rd['ref'][1][2] in (None, t.addr[2]) or t.addr[2] == rd['ref'][1][2])]
+                        ttag = cands[0] if cands else None
+                    if ttag is not None and ttag in twin_tags:
+                        kinds = ['write', 'writefrag'] + (['sas', 'sas'] if ttag.addr is not None else [])
+                        mod = gen_op(g, w.model, unique, kinds=kinds, fit=True, tag=ttag)
+                        members = members[:11] + [dict(rd), mod, dict(rd)]
             # --- as a bundle
             exps = [member_expect(w.model, op) for op in members]
             cip = rc.req_multiple([op_request(op) for op in members])
